@@ -97,7 +97,10 @@ func ResolveRelativeFinalSource(a, b FinalSource) (FinalSource, error) {
 	case LocalSource:
 		aRaw := a.relPath
 		new := path.Join(aRaw, bRaw)
-		if !looksLikeLocalSource(new) {
+		switch {
+		case new == "." || new == "..":
+			new += "/" // the canonical forms of these are "./" and "../"
+		case !looksLikeLocalSource(new):
 			new = "./" + new // preserve LocalSource's prefix invariant
 		}
 		return LocalSource{relPath: new}, nil
